@@ -311,6 +311,9 @@ struct CapAppender {
     idx: usize,
     spec: AppSpec,
     sh: Arc<LShared>,
+    /// the appender's own buffer lock (simulated): held for the whole of
+    /// `append`, needed by `flush`; never re-entrant, like a real mutex
+    busy: std::sync::atomic::AtomicU32,
 }
 
 impl Append for CapAppender {
@@ -320,6 +323,15 @@ impl Append for CapAppender {
             Some(i) => i,
             None => return Ok(()),
         };
+        // nested records reach the same appender legitimately (it logs itself): counted, not exclusive
+        self.busy.fetch_add(1, std::sync::atomic::Ordering::SeqCst);
+        struct Release<'a>(&'a std::sync::atomic::AtomicU32);
+        impl<'a> Drop for Release<'a> {
+            fn drop(&mut self) {
+                self.0.fetch_sub(1, std::sync::atomic::Ordering::SeqCst);
+            }
+        }
+        let _release = Release(&self.busy);
         let failed = fails(&self.spec, id);
         self.sh.obs.lock().unwrap().push(Obs { rec: id, version: self.version, ev: Ev::Deliver { app: self.idx, failed } });
         kernel::note("deliver", &format!("{} v{} a{} failed={}", id, self.version, self.idx, failed));
@@ -347,7 +359,13 @@ impl Append for CapAppender {
             Ok(())
         }
     }
-    fn flush(&self) {}
+    fn flush(&self) {
+        // needs the buffer lock: blocks while an append of this appender is under way
+        if let Some(k) = kernel::current() {
+            let busy = &self.busy;
+            k.block_here("cap.flush", &|| busy.load(std::sync::atomic::Ordering::SeqCst) == 0);
+        }
+    }
 }
 
 #[derive(Debug)]
@@ -373,7 +391,7 @@ impl Filter for ScriptFilter {
 }
 
 pub fn make_cap(version: u32, idx: usize, spec: AppSpec, sh: Arc<LShared>) -> Box<dyn Append> {
-    Box::new(CapAppender { version, idx, spec, sh })
+    Box::new(CapAppender { version, idx, spec, sh, busy: std::sync::atomic::AtomicU32::new(0) })
 }
 
 pub fn new_shared(scn: Scn, sink: Arc<Sink>, global: bool, file_dir: Option<std::path::PathBuf>) -> Arc<LShared> {
@@ -405,7 +423,7 @@ pub fn build_config(spec: &CfgSpec, version: u32, sh: &Arc<LShared>) -> Config {
                 FilterSpec::Threshold { level } => ab.filter(Box::new(ThresholdFilter::new(level_filter(*level)))),
             };
         }
-        b = b.appender(ab.build(format!("a{}", i), Box::new(CapAppender { version, idx: i, spec: a.clone(), sh: sh.clone() })));
+        b = b.appender(ab.build(format!("a{}", i), Box::new(CapAppender { version, idx: i, spec: a.clone(), sh: sh.clone(), busy: std::sync::atomic::AtomicU32::new(0) })));
     }
     for l in &spec.loggers {
         b = b.logger(CfgLogger::builder().additive(l.additive).appenders(l.appenders.iter().map(|i| format!("a{}", i))).build(l.name.clone(), level_filter(l.level)));
@@ -581,7 +599,7 @@ pub fn gen_cfg(rng: &mut Rng, nconf: u32, prop: &str, _version: u32) -> CfgSpec 
         } else {
             None
         };
-        appenders.push(AppSpec { filters, fail_num: if prop == "C03" { *rng.pick(&[0u8, 0, 1, 2, 4]) } else { 0 }, fail_seed: rng.next_u64(), reenter });
+        appenders.push(AppSpec { filters, fail_num: if prop == "C03" || prop == "C02" { *rng.pick(&[0u8, 0, 1, 2, 4]) } else { 0 }, fail_seed: rng.next_u64(), reenter });
     }
     let pick_apps = |rng: &mut Rng| -> Vec<usize> {
         let k = rng.weighted(&[2, 5, 2, 1]);
